@@ -678,6 +678,12 @@ TABLES = [
 ]
 
 
+# the file each extractor writes (named in the failure line, so that ./check can tell which properties depend on an
+# unreadable table and tie that table to the code behaviourally instead: tabprobe, DESIGN.md 3.1)
+GEN_FILE = {"gen_format_tables": "FormatTables.lean", "gen_ftab": "Ftab.lean", "gen_sheet_codes": "SheetCodes.lean",
+            "gen_xlsx_errors": "XlsxErrors.lean", "gen_berr_tables": "BErrTables.lean"}
+
+
 def main():
     if len(sys.argv) != 3:
         print(__doc__)
@@ -690,10 +696,12 @@ def main():
             name, text = gen(repo)
         except Unreadable as e:
             print(str(e))
+            print("UNREADABLE-FILE", GEN_FILE.get(gen.__name__, gen.__name__))
             failed = True
             continue
         except Exception as e:  # a crash of one extractor must name it
             print(f"translator cannot read table {gen.__name__}: internal error {type(e).__name__}: {e}")
+            print("UNREADABLE-FILE", GEN_FILE.get(gen.__name__, gen.__name__))
             failed = True
             continue
         changed = write_if_changed(os.path.join(outdir, name), text)
